@@ -64,9 +64,19 @@ func renameOldTypeDefinitions(env *Environment, changes []DefinitionChange, vers
 		td.GetDefinitionMeta().Name = td.GetDefinitionMeta().Name + "_" + versionLabel
 	}
 
+	// Definitions are reached through every reference to them: look at each one once
+	visited := make(map[TypeDefinition]bool)
+
 	Visit(env, func(self Visitor, node Node) {
 		switch node := node.(type) {
 		case TypeDefinition:
+			if _, isPrimitive := node.(PrimitiveDefinition); !isPrimitive {
+				if visited[node] {
+					return
+				}
+				visited[node] = true
+			}
+
 			oldName := node.GetDefinitionMeta().GetQualifiedName()
 			if oldNames[oldName] {
 				node.GetDefinitionMeta().Name = node.GetDefinitionMeta().Name + "_" + versionLabel
@@ -553,6 +563,9 @@ func resolveAllChanges(newEnv, oldEnv *Environment) ([]DefinitionChange, map[str
 
 	// Determine which "old" TypeDefinitions we need to emit DefinitionChanges for
 	oldDefsReferenced := make(map[string]bool)
+	// The definition objects already entered. (Not their names: two instantiations of
+	// one generic definition share a name but have different children.)
+	oldDefsEntered := make(map[TypeDefinition]bool)
 	for _, ch := range allProtocolChanges {
 		if _, ok := ch.(*ProtocolRemoved); ok {
 			continue
@@ -566,9 +579,17 @@ func resolveAllChanges(newEnv, oldEnv *Environment) ([]DefinitionChange, map[str
 				case nil, PrimitiveDefinition, *GenericTypeParameter:
 					return
 				case *NamedType:
+					if oldDefsEntered[node] {
+						return
+					}
+					oldDefsEntered[node] = true
 					oldDefsReferenced[node.GetDefinitionMeta().GetQualifiedName()] = true
 					self.Visit(node.Type)
 				case TypeDefinition:
+					if oldDefsEntered[node] {
+						return
+					}
+					oldDefsEntered[node] = true
 					oldDefsReferenced[node.GetDefinitionMeta().GetQualifiedName()] = true
 					self.VisitChildren(node)
 				case *SimpleType:
